@@ -7,3 +7,5 @@ import SmtpV.Props.C11Server
 #print axioms SmtpV.Props.C11.C11_mail_exact_or_refused
 #print axioms SmtpV.Props.C11.C11_mail_refused_before_backend
 #print axioms SmtpV.Props.C11.C11_rcpt_exact_or_refused
+#print axioms SmtpV.Props.C11.C11_empty_value_unparsable
+#print axioms SmtpV.Props.C11.C11_empty_value_refused
